@@ -109,6 +109,24 @@ def gen(ctx):
             cases.append("%d signed %d" % (k, x))
             if -(1 << 31) <= x < (1 << 31):
                 cases.append("%d signed %d int" % (k, x))
+        # mixed operations with a built-in unsigned on either side (free operator templates)
+        for _ in range(N // 4 + 6):
+            a = rval(n); u = rng.choice([0, 1, 2, 0xffff, 0x10000, 0xffffffff, (1 << 64) - 1, rng.randrange(1 << 64), rng.randrange(1 << 17)])
+            for o in ["add", "sub", "mul"]:
+                for side in ["mixl", "mixr"]:
+                    cases.append("%d %s %s %s %x 0" % (k, side, o, a, u))
+            # division with a small quotient on either side
+            av = int(a, 16); w_ = 16 * n
+            um = u % (1 << w_) if n < 4 else u
+            for side, x, y in (("mixl", av, um), ("mixr", um, av)):
+                q = (x // y) if y else 0
+                if q <= 5000:
+                    for o in ["div", "mod"]:
+                        cases.append("%d %s %s %s %x %d" % (k, side, o, a, u, q + 2))
+        for _ in range(8):
+            cases.append("%d stream %s" % (k, rval(n)))
+        for op in ["default", "limits"]:
+            cases.append("%d %s" % (k, op))
         for op in ["max", "min", "digits"]:
             cases.append("%d %s" % (k, op))
     return cases
